@@ -1,6 +1,6 @@
 (* C21: the hypotheses of the theorems are met by concrete non-trivial inputs, and the model
    computes the expected results on them (evaluated by the kernel). *)
-From SE Require Import Base.Prelude C21.PolyModel C21.PolySpec C21.PolyProofs.
+From SE Require Import Base.Prelude C21.PolyModel C21.PolySpec C21.PolyProofs C21.PolyFitsZ C21.PolyFitsZ2.
 From Coq Require Import QArith Qcanon.
 Local Open Scope Z_scope.
 (* the polynomial on which the unrepaired bit budget failed: (7 + 7x + ... + 7x^6)^2 *)
@@ -34,5 +34,15 @@ Example C21_rat_example :
   qpow (qfrom_vec [h; q1]) 2 = Ok (qfrom_vec [Q2Qc (1 # 4); q1; q1]) /\
   qdivides_fits (qfrom_vec [h; q1]) (qfrom_vec [Q2Qc (1 # 4); q1; q1]) = true /\
   qdivides (qfrom_vec [h; q1]) (qfrom_vec [Q2Qc (1 # 4); q1; q1]) = Ok (Some (qfrom_vec [h; q1])).
+Proof. vm_compute. repeat split. Qed.
+(* the simple conditions of P_pow_int_simple / P_divides_int_simple hold on ordinary inputs *)
+Example C21_simple_conditions_example :
+  let p := [3;-5;0;1000000007] in let b := [-1;0;0;1] in
+  max_abs_coef (zfrom_vec p) = Ok 1000000007 /\
+  ((1000 * degree (zfrom_vec p) <? W32) &&
+   (1000 * (N.size (degree (zfrom_vec p) + 1) + N.size (Z.to_N 1000000007)) + 36 <? W32))%N = true /\
+  max_abs_coef (zfrom_vec [1;1;1]) = Ok 1 /\ max_abs_coef (zfrom_vec b) = Ok 1 /\
+  ((degree (zfrom_vec b) <? W32) &&
+   ((degree (zfrom_vec b) + 1) * N.size (Z.to_N (1 + 1)) + N.size (Z.to_N 1) + N.size (Z.to_N 1) + 36 <? W32))%N = true.
 Proof. vm_compute. repeat split. Qed.
 Print Assumptions C21_kronecker_example.
